@@ -64,7 +64,7 @@ def check_floors(prop, obs, cfgs):
             want = per_cfg.get(cfg)
             if want is None:
                 continue
-            have = sum(1 for o in obs if o.rule == rule and o.cfg == cfg)
+            have = len(set(o.key() for o in obs if o.rule == rule and o.cfg == cfg))
             if have < want:
                 o = Ob(rule, "<floor>", "instances[%s]" % cfg, False,
                        "rule %s evaluated %d instances in config %s, floor is %d (an anchor disappeared or the rule lost its grip)" % (rule, have, cfg, want))
@@ -113,6 +113,7 @@ def main():
     spec = registry.PROPERTIES[prop]
     cfgs = ["all", "default"] + (["serde", "async"] if tier == "thorough" else [])
 
+    engine.REPO_DIR = a.repo
     facts = {}
     broken_cfgs = {}
     for c in cfgs:
@@ -215,7 +216,7 @@ def write_evidence(a, prop, tier, seed, t0, obs, fns, facts, controls, violation
                         "configs": r["configs"], "why": r["why"][:600], "values": r["values"]})
     floors = {}
     for rule, per in spec.get("floors", {}).items():
-        floors[rule] = {c: {"floor": per.get(c), "found": sum(1 for o in obs if o.rule == rule and o.cfg == c)} for c in facts.keys() if per.get(c) is not None}
+        floors[rule] = {c: {"floor": per.get(c), "found": len(set(o.key() for o in obs if o.rule == rule and o.cfg == c))} for c in facts.keys() if per.get(c) is not None}
     ev = {
         "property_id": prop,
         "tier": tier,
